@@ -86,10 +86,40 @@ def actors():
                 setattr(self, k, v)
 
     class Stateful(_Sym):
+        """Flavour 0: forml's default state handling (`__dict__` pickled - hyper-parameters included -, the default
+        `set_state` puts the current hyper-parameters back itself)."""
+
         def train(self, features, labels, /):
             prev = None if self.origin is None else [self.origin['tag'], self.origin['run']]
             _log({'ev': 'train', 'tag': self.tag, 'hp': self.hp, 'prev': self.origin})
             self.origin = {'tag': self.tag, 'run': int(os.environ.get('C04_RUN', '-1')), 'hp': self.hp, 'prev': prev}
+
+    class OwnCodec(Stateful):
+        """Flavour 1: a native actor with its own codec whose snapshot carries the hyper-parameters it was trained with;
+        `set_state` installs the snapshot as it is (putting the current hyper-parameters back is `SetState.set`'s job)."""
+
+        def get_state(self):
+            return json.dumps({'origin': self.origin, 'hp': self.hp, 'tag': self.tag, 'szout': self.szout}).encode()
+
+        def set_state(self, state):
+            if not state:
+                return
+            snapshot = json.loads(state.decode())
+            self.origin, self.hp, self.tag, self.szout = snapshot['origin'], snapshot['hp'], snapshot['tag'], snapshot['szout']
+
+    class DictCodec(Stateful):
+        """Flavour 2: the whole `__dict__` pickled (as the default does), installed without restoring anything."""
+
+        def get_state(self):
+            import pickle
+
+            return pickle.dumps(dict(self.__dict__))
+
+        def set_state(self, state):
+            import pickle
+
+            if state:
+                self.__dict__.update(pickle.loads(state))
 
     class Stateless(_Sym):
         pass
@@ -130,14 +160,22 @@ def actors():
 
     assert Stateful.is_stateful() and not Stateless.is_stateful()
     _CACHE['actors'] = (Stateful, Stateless, Source, Labels)
+    _CACHE['flavours'] = (Stateful, OwnCodec, DictCodec)
     _CACHE['parallel'] = Parallel
     return _CACHE['actors']
 
 
+def flavour_of(tag):
+    """The class of the stateful actor with builder `tag`: state handling varies with the occurrence (1, 4, 7.. own
+    codec carrying the hyper-parameters; 2, 5, 8.. pickled __dict__ without restoring; 0, 3, 6.. forml's default)."""
+    actors()
+    return _CACHE['flavours'][int(tag) % 3]
+
+
 def _builder(actor, hp: int, szout: int = 1, **kwargs):
     tag, stateful = actor
-    Stateful, Stateless, _, _ = actors()
-    cls = Stateful if stateful else Stateless
+    _, Stateless, _, _ = actors()
+    cls = flavour_of(tag) if stateful else Stateless
     if szout != 1:
         kwargs['szout'] = szout
     return cls.builder(tag=int(tag), hp=hp, **kwargs)
@@ -157,7 +195,7 @@ def _wrap_operator(lab, app, trn, hp: int):
         raise ValueError('empty wrap operator')
     cls = None
     for (tag, stateful), names in groups.items():
-        actor = Stateful if stateful else Stateless
+        actor = flavour_of(tag) if stateful else Stateless
         if names == ['apply', 'train']:
             cls = (cls or wrap.Operator).mapper(actor, tag=tag, hp=hp)
             continue
@@ -312,6 +350,15 @@ def new_registry(root: str, package: str) -> None:
     posix.Registry(root).push(project.Package(package))
 
 
+def _decode_origin(raw: bytes):
+    """The origin record inside a persisted state, whatever the codec of the actor flavour that produced it."""
+    import cloudpickle
+
+    if raw[:1] == b'{':
+        return json.loads(raw.decode()).get('origin')
+    return cloudpickle.loads(raw).get('origin')
+
+
 def _listing(registry) -> list:
     """[(generation, [origin of each committed state, in tag.states order])] read back from the registry files
     (a state that cannot be read is reported as None)."""
@@ -325,7 +372,7 @@ def _listing(registry) -> list:
         for sid in tag.states:
             try:
                 raw = registry.read(asset.Project.Key(PROJECT), asset.Release.Key(RELEASE), asset.Generation.Key(g), sid)
-                origins.append(cloudpickle.loads(raw).get('origin') if raw else None)
+                origins.append(_decode_origin(raw) if raw else None)
             except Exception:  # pylint: disable=broad-except
                 origins.append(None)
         out.append([g, origins])
@@ -404,16 +451,60 @@ def _arm_race(action: dict, result: dict) -> None:
     result['_disarm'] = lambda: setattr(_access.State, 'load', original)
 
 
+_HANDLES: dict = {}  # (in this process) handle id -> the objects the handle keeps alive across actions
+HANDLE_LEVELS = ('registry', 'directory', 'release', 'instance', 'runner')
+
+
+class _Upper:
+    """Stand-in for the levels above a kept `asset.Release` (`asset.Instance` walks `registry.get(p).get(r).get(g)`)."""
+
+    def __init__(self, below):
+        self._below = below
+
+    def get(self, _key):
+        return self._below
+
+
+def _chain(action: dict):
+    """(asset.Instance, kept runner slot or None) the action works through: a fresh chain of objects - or the objects
+    a long-lived handle keeps: the registry provider, the `asset.Directory`, the `asset.Release` level, the
+    `asset.Instance`, or the runner objects themselves."""
+    from forml.io import asset
+    from forml.provider.registry.filesystem import posix
+
+    handle = action.get('handle')
+    if not handle:
+        return asset.Instance(PROJECT, RELEASE, action.get('gen'), asset.Directory(posix.Registry(action['registry']))), None
+    slot = _HANDLES.setdefault((action['registry'], handle['id']), {})
+    level = handle['level']
+    if level == 'registry':
+        if 'registry' not in slot:
+            slot['registry'] = posix.Registry(action['registry'])
+        return asset.Instance(PROJECT, RELEASE, action.get('gen'), asset.Directory(slot['registry'])), None
+    if level == 'directory':
+        if 'directory' not in slot:
+            slot['directory'] = asset.Directory(posix.Registry(action['registry']))
+        return asset.Instance(PROJECT, RELEASE, action.get('gen'), slot['directory']), None
+    if level == 'release':
+        if 'release' not in slot:
+            slot['release'] = asset.Directory(posix.Registry(action['registry'])).get(PROJECT).get(RELEASE)
+        return asset.Instance(PROJECT, RELEASE, action.get('gen'), _Upper(_Upper(slot['release']))), None
+    if 'instance' not in slot:
+        slot['instance'] = asset.Instance(PROJECT, RELEASE, handle.get('gen'), asset.Directory(posix.Registry(action['registry'])))
+    return slot['instance'], (slot if level == 'runner' else None)
+
+
 def perform(action: dict) -> dict:
     """One lifecycle action against the registry at action['registry'] through the real runner.
 
     action: {'kind': train|apply|perftrack|serve, 'gen': int|None, 'hp': int, 'run': int, 'ast': ..., 'registry': dir,
              'log': file, 'sink': bool, 'crash': None|k (train: die before the k+1-th micro-step of write/close),
-             'race': None|{'run','hp'} (a re-training commits right after the first state load)}.
-    Returns {'status': 'ok'|'error', 'error': class name, 'where': build|run, 'generations': [...], 'raced': status}.
+             'race': None|{'run','hp'} (a re-training commits right after the first state load),
+             'handle': None|{'id', 'level', 'gen'} (work through the objects a long-lived handle keeps)}.
+    Returns {'status': 'ok'|'error', 'error': class name, 'where': build|run, 'generations': [...], 'raced': status,
+             'built': True if the serving runner was built by this action}.
+    Whatever the code under test raises is recorded as behaviour.
     """
-    from forml.io import asset
-    from forml.provider.registry.filesystem import posix
     from forml.provider.runner import dask as daskmod
     from forml.provider.runner import pyfunc
 
@@ -421,7 +512,6 @@ def perform(action: dict) -> dict:
     os.environ['C04_HP'] = str(action['hp'])
     os.environ['C04_RUN'] = str(action['run'])
     os.environ['C04_LOG'] = action['log']
-    registry = posix.Registry(action['registry'])
     result: dict = {'status': 'ok'}
     stage = 'build'
     extra: dict = {}
@@ -430,15 +520,24 @@ def perform(action: dict) -> dict:
     if action.get('race') and action['kind'] != 'train':
         _arm_race(action, extra)
     try:
-        instance = asset.Instance(PROJECT, RELEASE, action.get('gen'), asset.Directory(registry))
+        instance, kept = _chain(action)
         kind = action['kind']
         out = sink() if action.get('sink') else None
         if kind == 'serve':
-            runner = pyfunc.Runner(instance, feed(), out)
+            runner = kept.get('pyfunc') if kept is not None else None
+            if runner is None:
+                runner = pyfunc.Runner(instance, feed(), out)
+                extra['built'] = True
+                if kept is not None:
+                    kept['pyfunc'] = runner
             stage = 'run'
             runner.call(None)
         else:
-            runner = daskmod.Runner(instance, feed(), out, scheduler='synchronous')
+            runner = kept.get('dask') if kept is not None else None
+            if runner is None:
+                runner = daskmod.Runner(instance, feed(), out, scheduler='synchronous')
+                if kept is not None:
+                    kept['dask'] = runner
             stage = 'run'
             with runner:
                 if kind == 'train':
@@ -449,7 +548,9 @@ def perform(action: dict) -> dict:
                     runner.eval_perftrack()
                 else:
                     raise ValueError(kind)
-    except Exception as err:  # pylint: disable=broad-except
+    except BaseException as err:  # pylint: disable=broad-except
+        if isinstance(err, (KeyboardInterrupt, GeneratorExit)):
+            raise
         result = {'status': 'error', 'error': type(err).__name__, 'where': stage, 'message': str(err)[:200]}
     finally:
         if '_disarm' in extra:
@@ -479,6 +580,30 @@ def _quiet() -> None:
         sys.__unraisablehook__(unraisable)
 
     sys.unraisablehook = hook
+
+
+def _preset_real(cases: list) -> list:
+    """[(flavour, current hp, training hp, empty state)] -> what the actor runs with after the real preset."""
+    from forml.flow._code.target import user
+
+    actors()
+    out = []
+    work = tempfile.mkdtemp(prefix='verif-c04-preset-')
+    try:
+        for k, (fl, cur, was, empty) in enumerate(cases):
+            cls = _CACHE['flavours'][fl]
+            os.environ['C04_RUN'] = '0'
+            os.environ['C04_LOG'] = ''
+            trained = cls(tag=1, hp=was)
+            trained.train(None, None)
+            state = b'' if empty else trained.get_state()
+            os.environ['C04_LOG'] = os.path.join(work, f'log-{k}')
+            user.Apply().functor(cls.builder(tag=1, hp=cur)).preset_state().execute(state, ('input', 0))
+            (event,) = [e for e in read_log(os.environ['C04_LOG']) if e['ev'] == 'apply']
+            out.append({'hp': event['hp'], 'origin': event.get('origin')})
+    finally:
+        shutil.rmtree(work, ignore_errors=True)
+    return out
 
 
 def action_main() -> int:
@@ -660,14 +785,21 @@ def _crashed(action: dict) -> typing.Optional[dict]:
     return {'status': 'crashed', 'done': done, 'generations': _forked(listing_of, action['registry'])}
 
 
+def _died(action: dict, err) -> dict:
+    """The action's process ended without a result and without the armed crash: recorded as behaviour."""
+    try:
+        listing = _forked(listing_of, action['registry'])
+    except Exception:  # pylint: disable=broad-except
+        listing = None
+    return {'status': 'died', 'error': 'ProcessDied', 'where': 'run', 'message': str(err)[:200], 'generations': listing}
+
+
 def _act_forked(action: dict) -> dict:
     try:
         return _forked(perform, action)
-    except Died:
+    except (Died, RuntimeError) as err:
         res = _crashed(action)
-        if res is None:
-            raise
-        return res
+        return res if res is not None else _died(action, err)
 
 
 def _subprocess(action: dict) -> dict:
@@ -680,7 +812,7 @@ def _subprocess(action: dict) -> dict:
     res = _crashed(action)
     if res is not None:
         return res
-    raise RuntimeError(f'action process failed ({proc.returncode}): {proc.stderr[-800:]}')
+    return _died(action, f'action process failed ({proc.returncode}): {proc.stderr[-300:]}')
 
 
 def _perform_all(actions: list) -> list:
@@ -694,20 +826,35 @@ def run_case(job: dict) -> dict:
     try:
         out: dict = {}
         if job.get('extract', True):
-            out['extract'] = _forked(extract_case, {'ast': job['ast'], 'sink': job.get('sink')})
+            try:
+                out['extract'] = _forked(extract_case, {'ast': job['ast'], 'sink': job.get('sink')})
+            except (RuntimeError, Died) as err:  # the code under test refuses to expand the pipeline: behaviour
+                out['extract_error'] = str(err)[:300]
         registry = os.path.join(work, 'registry')
-        _forked(lambda _: new_registry(registry, job['package']), None)
+        try:
+            _forked(lambda _: new_registry(registry, job['package']), None)
+        except (RuntimeError, Died) as err:  # the code under test cannot publish the package: behaviour
+            out['setup_error'] = str(err)[:300]
+            out['steps'] = []
+            return out
         actions = []
+        handles = job.get('handles') or {}
         for i, act in enumerate(job['history']):
+            handle = None
+            if act.get('handle') is not None and job['isolation'] == 'handles':
+                handle = dict(handles[str(act['handle'])], id=str(act['handle']))
             actions.append({'kind': act['kind'], 'gen': act['gen'], 'hp': act['hp'], 'run': i, 'ast': job['ast'],
-                            'sink': bool(job.get('sink')), 'crash': act.get('crash'),
+                            'sink': bool(job.get('sink')), 'crash': act.get('crash') if job['isolation'] != 'handles' else None,
                             'race': {'run': 100 + i, 'hp': (act['hp'] + 5) % 10} if act.get('race') else None,
-                            'registry': registry, 'log': os.path.join(work, f'log-{i}')})
+                            'handle': handle, 'registry': registry, 'log': os.path.join(work, f'log-{i}')})
         iso = job['isolation']
         if iso == 'inprocess' and any(a['crash'] is not None for a in actions):
             iso = 'fork'  # a process that is to die cannot host the rest of the history
-        if iso == 'inprocess':
-            results = _forked(_perform_all, actions)
+        if iso in ('inprocess', 'handles'):
+            try:
+                results = _forked(_perform_all, actions)
+            except (RuntimeError, Died) as err:
+                results = [_died(a, err) for a in actions]
         elif iso == 'fork':
             results = [_act_forked(a) for a in actions]
         elif iso == 'subprocess':
@@ -757,39 +904,73 @@ def impl_observations(events: list) -> list:
 
 def spec_violations(case: dict, steps: list) -> list:
     """The property itself, evaluated on what the real actors logged.  Independent of the model: uses only the
-    history, the registry listings the real code produced and the logged events.
+    history (incl. which long-lived handle an action works through), the registry listings the real code produced and
+    the logged events.
     Returns [(step index, what, signature)]."""
     out = []
     run_of: dict = {}  # generation -> run (= index of the train action that committed it)
     trained_in: dict = {}  # run -> occurrences trained in that run (they produced a state there)
+    content: dict = {}  # generation -> the origins of its states as first listed
     gens_before: list = []
     applied_stateful = set(case.get('apply_stateful') or [])
+    handles = case.get('handles') or {}
+    pinned: dict = {}  # handle -> the generation its asset.Instance addresses once it has resolved `latest`
+    serving: dict = {}  # handle -> (generation, hyper-parameter) its kept serving runner was built with
     for i, (act, step) in enumerate(zip(case['history'], steps)):
         res = step['result']
         listing = res.get('generations')
         gens_after = [g for g, _ in listing] if listing is not None else list(gens_before)
         race_run = 100 + i
         raced = [ev for ev in step.get('race_events') or [] if ev['ev'] == 'train']
+        mode = act['kind']
         for g in gens_after:
             if g not in gens_before:
                 # committed by this action - or, while a non-training action ran, by the re-training racing with it
                 run_of[g] = i if act['kind'] == 'train' else race_run
+        # a committed generation never changes
+        for g, origins in listing or []:
+            summary = [None if o is None else [o.get('tag'), o.get('run')] for o in origins]
+            if g in content and content[g] != summary:
+                out.append((i, f'{mode} step {i}: generation {g} was committed with the states {content[g]} and now lists '
+                               f'{summary}: a committed generation has been replaced', 'registry:generation-replaced'))
+                content[g] = summary
+            content.setdefault(g, summary)
         if step.get('race_events'):
             trained_in[race_run] = {int(ev['tag']) for ev in raced}
-        # the generation the action selects when it starts (explicit, or the latest one listed at that moment)
-        if act['gen'] is not None:
-            selected = act['gen'] if act['gen'] in gens_before else None
+        # --- the generation the action addresses
+        hspec = handles.get(str(act.get('handle'))) if act.get('handle') is not None else None
+        keeps_instance = hspec is not None and hspec['level'] in ('instance', 'runner')
+        explicit = (hspec.get('gen') if keeps_instance else act['gen'])
+        expected_hp = int(act['hp'])
+        hkey = str(act.get('handle'))
+        kept_serving = keeps_instance and hspec['level'] == 'runner' and mode == 'serve' and hkey in serving
+        if kept_serving:
+            selected, expected_hp = serving[hkey]  # states and hyper-parameters of the moment the runner was built
+        elif explicit is not None:
+            selected = explicit if explicit in gens_before else None
+        elif keeps_instance and pinned.get(hkey) is not None:
+            selected = pinned[hkey]  # the key the instance resolved at its first use on a non-empty release
         else:
             selected = max(gens_before) if gens_before else None
-        mode = act['kind']
         trained_in[i] = {int(ev['tag']) for ev in step['events'] if ev['ev'] == 'train'}
+        if keeps_instance and not kept_serving:
+            loaded = res.get('status') == 'ok' and any(ev['ev'] == 'apply' and ev.get('stateful') for ev in step['events'])
+            if explicit is None and pinned.get(hkey) is None and gens_before and (mode == 'train' or loaded):
+                pinned[hkey] = max(gens_before)
+            if hspec['level'] == 'runner' and mode == 'serve' and res.get('status') == 'ok' and res.get('built'):
+                serving[hkey] = (selected, int(act['hp']))
+        # a successful training of persisted actors commits a new generation
+        if (mode == 'train' and res.get('status') == 'ok' and listing is not None and gens_after == gens_before
+                and trained_in[i] & applied_stateful):
+            out.append((i, f'train step {i}: the run trained the persisted actors {sorted(trained_in[i] & applied_stateful)} but no '
+                           f'new generation is listed afterwards ({gens_after})', 'train:nothing-committed'))
         # the occurrences whose counterpart produced a state in the run that committed the selected generation
         producers = trained_in.get(run_of.get(selected), set()) if selected is not None else set()
         for ev in step['events']:
             tag = int(ev['tag'])
             who = f'{mode} step {i}: actor {tag}'
-            if int(ev['hp']) != int(act['hp']):
-                out.append((i, f"{who} runs with hyper-parameter {ev['hp']} but the current code configures {act['hp']}",
+            if int(ev['hp']) != expected_hp:
+                out.append((i, f"{who} runs with hyper-parameter {ev['hp']} but the current code configures {expected_hp}",
                             f'{mode}:stale-hyperparameter'))
             if ev['ev'] == 'apply' and ev.get('stateful'):
                 o = ev.get('origin')
@@ -911,15 +1092,29 @@ CORPUS_HISTORIES = [
 
 
 def _parse_history(spec: list, rng=None) -> list:
+    """`train!k`: dies before the k+1-th micro-step; `apply~`: raced by a committing re-training; `apply:1`: explicit
+    generation; `train@a`: through the long-lived handle `a` (its generation argument is the handle's)."""
     out = []
     for i, item in enumerate(spec):
+        item, _, handle = item.partition('@')
         race = item.endswith('~')
         item = item.rstrip('~')
         item, _, crash = item.partition('!')
         kind, _, gen = item.partition(':')
         out.append({'kind': kind, 'gen': int(gen) if gen else None, 'crash': int(crash) if crash else None, 'race': race,
-                    'hp': (i * 7 + 3) % 10 if rng is None else rng.randint(0, 9)})
+                    'handle': handle or None, 'hp': (i * 7 + 3) % 10 if rng is None else rng.randint(0, 9)})
     return out
+
+
+# histories through long-lived handles (isolation `handles`: one process; the handle table of the job says what each
+# handle keeps alive: the registry provider, the asset.Directory, the asset.Release, the asset.Instance, the runners)
+HANDLE_HISTORIES = [
+    ['train@a', 'train@a', 'train@a', 'apply:1', 'apply:2', 'apply:3', 'apply@a', 'perftrack@a', 'serve@a', 'train',
+     'serve@a', 'apply'],
+    ['train', 'serve@a', 'train@a', 'serve@a', 'train@a', 'train@a', 'serve:2', 'apply:3', 'perftrack:4', 'serve@a'],
+    ['train@a', 'train@b', 'train@a', 'train@b', 'train@a', 'apply:2', 'perftrack:3', 'serve:4', 'apply:5', 'apply@b'],
+    ['serve@a', 'train@a', 'apply@a', 'train', 'train@a', 'apply@a', 'serve@a', 'perftrack:3'],
+]
 
 
 def retag(ast, counter=None):
@@ -1050,18 +1245,56 @@ class C04(fw.Check):
         return out
 
     def _jobs(self) -> list:
-        plan = {'subprocess': self.n(8, 60), 'fork': self.n(36, 400), 'inprocess': self.n(36, 400)}
+        plan = {'subprocess': self.n(8, 60), 'fork': self.n(36, 400), 'inprocess': self.n(30, 340), 'handles': self.n(14, 160)}
         jobs = []
         for iso, count in plan.items():
             for k, (ast, snk) in enumerate(self._asts(count)):
-                if k < len(CORPUS_ASTS):
+                handles = None
+                if iso == 'handles':
+                    handles = self._handle_table()
+                    if k < 2 * len(HANDLE_HISTORIES):
+                        hist = _parse_history(HANDLE_HISTORIES[k % len(HANDLE_HISTORIES)])
+                    else:
+                        hist = self._handle_history(handles)
+                    snk = True if k < 2 * len(HANDLE_HISTORIES) else snk
+                elif k < len(CORPUS_ASTS):
                     hist = _parse_history(CORPUS_HISTORIES[(k + len(iso)) % len(CORPUS_HISTORIES)])
                 else:
                     hist = self._history()
                 if iso == 'subprocess' and self.quick:
                     hist = hist[:3]  # a fresh interpreter costs ~2.5 s per action on an idle box, ~25 s at load average 60
-                jobs.append({'ast': ast, 'sink': snk, 'history': hist, 'isolation': iso, 'shape': shape(ast)})
+                if handles:
+                    for act in hist:  # an action through a kept asset.Instance addresses what that instance was created for
+                        if act.get('handle') and handles[act['handle']]['level'] in ('instance', 'runner'):
+                            act['gen'] = handles[act['handle']]['gen']
+                jobs.append({'ast': ast, 'sink': snk, 'history': hist, 'isolation': iso, 'shape': shape(ast), 'handles': handles})
         return jobs + self._sweep_jobs()
+
+    def _handle_table(self) -> dict:
+        """What the long-lived handles `a`, `b`, `c` of a session keep alive (and the generation argument of a kept
+        asset.Instance)."""
+        rng = self.rng
+        levels = ['instance', 'runner', 'instance', 'runner', 'release', 'directory', 'registry']
+        return {h: {'level': rng.choice(levels), 'gen': rng.choice([None, None, None, None, 1, 2])} for h in 'abc'}
+
+    def _handle_history(self, handles: dict) -> list:
+        """Every action chooses a fresh chain of objects or one of the long-lived handles; several trainings through
+        one handle, then loads of explicit generations through fresh chains."""
+        rng = self.rng
+        out = []
+        trained = 0
+        for i in range(rng.choice([5, 6, 7, 8, 9, 10])):
+            kind = 'train' if (i == 0 and rng.random() < 0.8) else rng.choice(['train', 'train', 'apply', 'perftrack', 'serve', 'apply'])
+            handle = rng.choice(['a', 'a', 'a', 'b', 'c', None, None])
+            gen = None
+            if handle is None and trained and kind != 'train' and rng.random() < 0.6:
+                gen = rng.randint(1, trained)
+            if handle is not None and handles[handle]['level'] in ('instance', 'runner'):
+                gen = handles[handle]['gen']
+            out.append({'kind': kind, 'gen': gen, 'hp': rng.randint(0, 9), 'crash': None, 'race': False, 'handle': handle})
+            if kind == 'train':
+                trained += 1
+        return out
 
     def _sweep_jobs(self) -> list:
         """A training that dies at *each* micro-step of its commit (state files staged, directory, files moved, tag
@@ -1081,6 +1314,12 @@ class C04(fw.Check):
             for iso in ('fork', 'inprocess'):
                 hist = _parse_history(['train', 'train', 'apply~', 'perftrack~', 'serve~', 'apply:1~', 'perftrack', 'train'])
                 jobs.append({'ast': ast, 'sink': True, 'history': hist, 'shape': shape(ast) + ' race-sweep', 'isolation': iso})
+        # every kind of long-lived handle: three trainings through it, explicit loads through fresh chains, every mode
+        # through the handle, a foreign commit, the handle again
+        for level in HANDLE_LEVELS:
+            jobs.append({'ast': chain if level != 'runner' else fan, 'sink': True, 'history': _parse_history(HANDLE_HISTORIES[0]),
+                         'shape': f'handle-sweep {level}', 'isolation': 'handles',
+                         'handles': {'a': {'level': level, 'gen': None}}})
         return jobs
 
     # ---- running -------------------------------------------------------------------------------
@@ -1093,9 +1332,10 @@ class C04(fw.Check):
         from forml.provider.registry.filesystem import posix  # noqa: F401
         from forml.provider.runner import dask as _d, pyfunc as _p  # noqa: F401
 
-        self._work = tempfile.mkdtemp(prefix='verif-c04-')
-        atexit.register(shutil.rmtree, self._work, ignore_errors=True)
-        self._package = _forked(make_package, self._work)
+        work = tempfile.mkdtemp(prefix='verif-c04-')
+        atexit.register(shutil.rmtree, work, ignore_errors=True)
+        self._package = _forked(make_package, work)  # (raises if project.Package.create does: the callers record that)
+        self._work = work
 
     def _run(self, jobs: list) -> list:
         self._setup()
@@ -1129,7 +1369,12 @@ class C04(fw.Check):
             res = steps[i]['result'] if steps else {}
             crash = res.get('done') if res.get('status') == 'crashed' else None
             race = [100 + i, (a['hp'] + 5) % 10] if res.get('raced') == 'ok' else None
-            acts.append([a['kind'], a['gen'], i, a['hp'], 1000 * (i + 1), crash, race])
+            via = None
+            hspec = (job.get('handles') or {}).get(str(a.get('handle'))) if a.get('handle') is not None else None
+            if hspec is not None and job['isolation'] == 'handles' and hspec['level'] in ('instance', 'runner'):
+                # (the levels above the instance remember nothing that matters: a fresh chain for the model)
+                via = ['abcdefgh'.index(str(a['handle'])) + 1, hspec['level'] == 'runner']
+            acts.append([a['kind'], a['gen'], i, a['hp'], 1000 * (i + 1), crash, race, via])
         if expr is not None:
             return sexp.dumps(['expr', expr, bool(job.get('sink')), acts])
         return sexp.dumps(['case', self._comp_sexp(ext['plain']), self._comp_sexp(ext['perf']), bool(job.get('sink')), acts,
@@ -1158,13 +1403,20 @@ class C04(fw.Check):
 
     def _judge(self, job: dict, res: dict, model: typing.Optional[dict]) -> None:
         """Oracle on the real behaviour + comparison with the model for one case."""
-        case = {'ast': job['ast'], 'sink': bool(job.get('sink')), 'history': job['history'], 'isolation': job['isolation']}
-        key = (json.dumps(job['ast']), bool(job.get('sink')), json.dumps(job['history']), job['isolation'])
+        case = {'ast': job['ast'], 'sink': bool(job.get('sink')), 'history': job['history'], 'isolation': job['isolation'],
+                'handles': job.get('handles')}
+        key = (json.dumps(job['ast']), bool(job.get('sink')), json.dumps(job['history']), job['isolation'],
+               json.dumps(job.get('handles'), sort_keys=True))
         if 'machinery' in res:
             raise fw.MachineryError(f"case {case} could not be run: {res['machinery']}")
         ext = res.get('extract') or {}
         steps = res['steps']
         case['apply_stateful'] = (ext.get('plain') or {}).get('apply_stateful')
+        for what in ('extract_error', 'setup_error'):
+            if what in res:
+                self.diverge('the code under test ' + ('does not expand the pipeline' if what == 'extract_error' else
+                                                       'cannot publish the project package') + ': ' + res[what][:160],
+                             case, res[what][:160], 'expands / publishes')
         loaded = 0
         for act, st in zip(job['history'], steps):
             if act['kind'] != 'train' and st['result']['status'] == 'ok':
@@ -1172,6 +1424,7 @@ class C04(fw.Check):
                 loaded = max(loaded, len(holders))
         self.case(key, f"{job['isolation']} {job['shape'] if len(job['shape']) < 40 else 'large'}", nontrivial=loaded >= 2,
                   sample={'ast': job['ast'], 'sink': bool(job.get('sink')), 'history': job['history'], 'isolation': job['isolation'],
+                          'handles': job.get('handles'),
                           'first_apply': impl_observations(next((s['events'] for a, s in zip(job['history'], steps)
                                                                  if a['kind'] != 'train'), []))[:6]})
         for st in steps:
@@ -1183,7 +1436,7 @@ class C04(fw.Check):
         # --- oracle (real code only)
         for i, what, sig in spec_violations(case, steps):
             witness = {'ast': job['ast'], 'sink': bool(job.get('sink')), 'history': job['history'][: i + 1],
-                       'isolation': job['isolation'], 'step': i}
+                       'isolation': job['isolation'], 'handles': job.get('handles'), 'step': i}
             self.violate(what, witness, sig, {'events': impl_observations(steps[i]['events'])[:12]})
         # --- expansion stability on the real code
         if ext and not ext.get('stable', True):
@@ -1297,7 +1550,8 @@ class C04(fw.Check):
         """The composition the model expands itself from the expression (`compOf`) against the graph extracted from the
         real expansion: persistent occurrences position by position, well-formedness, and every action of the history."""
         self.extra.setdefault('model_expansion_vs_extraction', collections.Counter())
-        case = {'ast': job['ast'], 'sink': bool(job.get('sink')), 'history': job['history'], 'isolation': job['isolation']}
+        case = {'ast': job['ast'], 'sink': bool(job.get('sink')), 'history': job['history'], 'isolation': job['isolation'],
+                'handles': job.get('handles')}
         for what, a, b in (('persistent occurrences', extracted['ptags'], own['ptags']),
                            ('wfPlain', extracted['wf'][0], own['wf'][0]),
                            ('tailClean', extracted['tail_clean'], own['tail_clean']),
@@ -1308,6 +1562,31 @@ class C04(fw.Check):
                              'from the real expansion', case, a if what != 'actions' else 'extracted', b if what != 'actions' else 'compOf')
                 return
         self.extra['model_expansion_vs_extraction']['agree'] += 1
+
+    def _params_tie(self) -> None:
+        """`SetState.set` on real actors of every flavour against `presetActor` of the model: an actor built by the
+        current code (hyper-parameter `cur`) is preset with the state a training-time actor (hyper-parameter `was`)
+        produced - through the real `Functor.preset_state()`."""
+        cases = [(fl, cur, was, empty) for fl in range(3) for cur, was in ((5, 3), (0, 7), (4, 4)) for empty in (False, True)]
+        try:
+            real = _forked(_preset_real, cases)
+        except (RuntimeError, Died) as err:
+            self.diverge('presetting an actor with a state raises: ' + str(err)[:200], {'params': 'preset'}, str(err)[:200], 'presets')
+            return
+        names = ['default', 'own-codec', 'dict-codec']
+        lines = [sexp.dumps(['params', names[fl], cur, NONE if empty else [1, 0, was, NONE]]) for fl, cur, was, empty in cases]
+        for (fl, cur, was, empty), got, answer in zip(cases, real, self.model(lines)):
+            m = sexp.num(sexp.loads(answer))
+            want = {'hp': m[1], 'origin': NONE if m[2] == NONE else m[2]}
+            have = {'hp': got['hp'], 'origin': _origin(got['origin'])}
+            case = {'flavour': names[fl], 'current_hp': cur, 'training_hp': was, 'empty_state': empty}
+            self.case(('params', fl, cur, was, empty), f'preset {names[fl]}', nontrivial=not empty, sample=dict(case, real=have))
+            if got['hp'] != cur:  # the property itself: the hyper-parameters of the current code
+                self.violate(f"an actor ({names[fl]} state handling) built with hyper-parameter {cur} and preset with a state "
+                             f"trained under hyper-parameter {was} runs with hyper-parameter {got['hp']}",
+                             dict(case, kind='preset'), 'preset:stale-hyperparameter')
+            elif have != want:
+                self.diverge('what SetState.set leaves in the actor', case, have, want)
 
     def _exhaustive_jobs(self) -> list:
         """DESIGN section 5 (thorough): every pipeline of <= 3 leaves over {stateful mapper, stateless mapper, stateful
@@ -1330,6 +1609,13 @@ class C04(fw.Check):
         return jobs
 
     def correspondence(self):
+        try:
+            self._setup()
+        except (RuntimeError, Died) as err:  # project.Package.create is code under test, too
+            self.diverge('the project package of the test project cannot be built: ' + str(err)[:200], {'setup': 'package'},
+                         str(err)[:200], 'builds')
+            return
+        self._params_tie()
         jobs = self._jobs()
         if not self.quick:
             jobs += self._exhaustive_jobs()
@@ -1341,7 +1627,7 @@ class C04(fw.Check):
         # minimise one witness per root cause (the others carry the same signature and are folded by the framework)
         seen: set = set(self._listed_signatures())  # violations of listed findings are folded by the framework as they are
         for idx, v in enumerate(self.violations):
-            if v.signature in seen or len(seen) >= 5:
+            if v.signature in seen or len(seen) >= 5 or 'history' not in v.witness:
                 continue
             seen.add(v.signature)
             small = self._shrink(v.witness, v.signature)
@@ -1373,15 +1659,23 @@ class C04(fw.Check):
             for iso in ('inprocess', 'fork'):
                 for hist in CORPUS_HISTORIES:
                     jobs.append({'ast': ast, 'sink': snk, 'history': _parse_history(hist), 'isolation': iso, 'shape': shape(ast)})
+            for hist in HANDLE_HISTORIES:
+                jobs.append({'ast': ast, 'sink': True, 'history': _parse_history(hist), 'isolation': 'handles', 'shape': shape(ast),
+                             'handles': {'a': {'level': 'instance', 'gen': None}, 'b': {'level': 'runner', 'gen': None}}})
         before = len(self.violations)
-        for job, res in zip(jobs, self._run(jobs)):
+        try:
+            results = self._run(jobs)
+        except (RuntimeError, Died) as err:
+            self.notes.append(f'failing-input search ({reason}): the test project cannot be set up ({str(err)[:120]})')
+            return
+        for job, res in zip(jobs, results):
             if 'machinery' in res:
                 continue
-            case = {'ast': job['ast'], 'history': job['history'], 'isolation': job['isolation'],
+            case = {'ast': job['ast'], 'history': job['history'], 'isolation': job['isolation'], 'handles': job.get('handles'),
                     'apply_stateful': ((res.get('extract') or {}).get('plain') or {}).get('apply_stateful')}
-            for i, what, sig in spec_violations(case, res['steps']):
+            for i, what, sig in spec_violations(case, res.get('steps') or []):
                 self.violate(what, {'ast': job['ast'], 'sink': job['sink'], 'history': job['history'][: i + 1],
-                                    'isolation': job['isolation'], 'step': i}, sig)
+                                    'isolation': job['isolation'], 'handles': job.get('handles'), 'step': i}, sig)
         self.notes.append(f'failing-input search ({reason}): {len(jobs)} histories around {len(seeds)} expressions, '
                           f'{len(self.violations) - before} violations of the property found on the real code')
 
@@ -1389,7 +1683,7 @@ class C04(fw.Check):
         """Smaller witness with the same signature: drop actions that are not needed, then try sub-expressions."""
         def fails(w):
             res = _run_case_safe({'ast': w['ast'], 'sink': w.get('sink'), 'history': w['history'], 'isolation': w['isolation'],
-                                  'package': self._package})
+                                  'handles': w.get('handles'), 'package': self._package})
             if 'machinery' in res:
                 return False
             case = dict(w, apply_stateful=((res.get('extract') or {}).get('plain') or {}).get('apply_stateful'))
@@ -1417,13 +1711,27 @@ class C04(fw.Check):
 
     def replay_finding(self, entry):
         w = entry['witness']
-        self._setup()
+        if w.get('kind') == 'preset':
+            names = ['default', 'own-codec', 'dict-codec']
+            try:
+                (got,) = _forked(_preset_real, [(names.index(w['flavour']), w['current_hp'], w['training_hp'], w['empty_state'])])
+            except (RuntimeError, Died) as err:
+                return fw.Violation('presetting an actor with a state raises: ' + str(err)[:200], w, 'preset:raises')
+            if got['hp'] != w['current_hp']:
+                return fw.Violation(f"the actor runs with hyper-parameter {got['hp']} instead of {w['current_hp']}", w,
+                                    'preset:stale-hyperparameter')
+            return None
+        try:
+            self._setup()
+        except (RuntimeError, Died) as err:
+            self.notes.append(f"replay of {entry.get('id')}: the test project cannot be set up ({str(err)[:120]})")
+            return None
         res = _run_case_safe({'ast': w['ast'], 'sink': w.get('sink'), 'history': w['history'],
-                              'isolation': w.get('isolation', 'fork'), 'package': self._package})
+                              'isolation': w.get('isolation', 'fork'), 'handles': w.get('handles'), 'package': self._package})
         if 'machinery' in res:
             raise fw.MachineryError(res['machinery'])
         case = dict(w, apply_stateful=((res.get('extract') or {}).get('plain') or {}).get('apply_stateful'))
-        for i, what, sig in spec_violations(case, res['steps']):
+        for i, what, sig in spec_violations(case, res.get('steps') or []):
             return fw.Violation(what, w, sig, {'events': impl_observations(res['steps'][i]['events'])[:12]})
         return None
 
